@@ -368,8 +368,12 @@ func (r *Report) writeEvidence(violations int) {
 		"repo_commit": commitOf("/repo"),
 	}
 	b, _ := json.MarshalIndent(ev, "", " ")
-	os.MkdirAll(filepath.Join(verifRoot, "evidence"), 0o755)
-	if err := os.WriteFile(filepath.Join(verifRoot, "evidence", r.Prop+".json"), b, 0o644); err != nil {
+	evDir := "evidence"
+	if strings.HasPrefix(r.Prop, "X") { // checks beyond the listed properties keep their evidence apart
+		evDir = "evidence-extra"
+	}
+	os.MkdirAll(filepath.Join(verifRoot, evDir), 0o755)
+	if err := os.WriteFile(filepath.Join(verifRoot, evDir, r.Prop+".json"), b, 0o644); err != nil {
 		infraFail("writing evidence: %v", err)
 	}
 }
